@@ -17,3 +17,40 @@ package db19
 //@   ensures! increasing: dateLess(old(timestamp), timestamp) && validDate(timestamp)
 //@   ensures! window5: dMs(ts) < 500 ==> timestamp.date == ts.date && timestamp.time == ts.time + 5
 //@   ensures! window1: dMs(ts) >= 500 && dMs(ts) < 999 ==> timestamp.date == ts.date && timestamp.time == ts.time + 1
+
+//@ property C08
+// Foreign keys: the decision whether a change of a referenced (target) row is refused.
+// fkSrcExists(table, iindex) abstracts "the foreign key index iindex of source table `table`
+// contains rows that reference the target key being deleted" (what fkeyDeleteExists finds).
+//@ spec fkSrcExists(table string, iindex int) bool
+//@ func (t *UpdateTran) fkeyDeleteExists(fkth, key, kn) (r)
+//@   assumed
+//@   pure
+//@   ensures r == fkSrcExists(fkth.Table, fkth.IIndex)
+
+// Removing a referenced target key - by deleting the row (cascades == CascadeDeletes) or by an
+// update that changes the key (cascades == CascadeUpdates) - is refused unless the foreign key
+// cascades that kind of change: if fkeyDeleteBlock returns normally then every foreign key that
+// points at this index either cascades that kind of change or has no referencing rows.
+// (The two call sites, Delete and update, pass the respective constant; they are not under contract.)
+//@ func (t *UpdateTran) fkeyDeleteBlock(ts, i, key, cascades)
+//@   nosafety
+//@   maypanic
+//@   requires ts != nil && 0 <= i && i < len(ts.Schema.Indexes)
+//@   ensures! refused_unless_cascaded: len(key) > 0 ==> forall k :: 0 <= k && k < len(ts.Schema.Indexes[i].FkToHere) ==> ((ts.Schema.Indexes[i].FkToHere[k].Mode & cascades) != 0 || !fkSrcExists(ts.Schema.Indexes[i].FkToHere[k].Table, ts.Schema.Indexes[i].FkToHere[k].IIndex))
+//@   loop 0 invariant 0 <= j && j <= len(fkToHere) && forall k :: 0 <= k && k < j ==> ((fkToHere[k].Mode & cascades) != 0 || !fkSrcExists(fkToHere[k].Table, fkToHere[k].IIndex))
+
+// Adding or changing a source row is refused unless the (non-empty) foreign key value has a
+// matching target row: fkTgtExists(table, iindex) abstracts "the target index contains the key"
+// (what fkeyOutputExists looks up).
+//@ spec fkTgtExists(table string, iindex int) bool
+//@ func (t *UpdateTran) fkeyOutputExists(table, iIndex, key) (r)
+//@   assumed
+//@   pure
+//@   ensures r == fkTgtExists(table, iIndex)
+//@ func (t *UpdateTran) fkeyOutputBlock(ts, i, rec)
+//@   nosafety
+//@   maypanic
+//@   requires ts != nil && 0 <= i && i < len(ts.Schema.Indexes)
+//@   ghost k string = key
+//@   ensures! output_blocked_without_target: len(ts.Schema.Indexes[i].Fk.Table) > 0 ==> (len(k) == 0 || fkTgtExists(ts.Schema.Indexes[i].Fk.Table, ts.Schema.Indexes[i].Fk.IIndex))
